@@ -62,9 +62,19 @@ def body(chk):
                           seed=chk.seed + 900 + rpc, fss=["vtrace"], sels=[("all",), ("slice", 1, 5, 2)], origin="multi", special=False))
     cases.append(dict(level="1.1", images=[("HH", "F1", 5, 2), ("HH", "F2", 5, 2)], rpc=None, seed=chk.seed + 950, fss=["vtrace"],
                       sels=[("all",)], origin="default-options", special=False))
+    # size relations: a group of records_per_chunk lines is ONE request however many bytes that is (2^24 .. 2^28 here): line records
+    # of ~1 MB, default / exact / small rpc (the arithmetic of the spec is over unbounded integers; this binds it at the sizes where
+    # an implementation's request-size assumptions bite)
+    big = [(18, 494904, None), (70, 494904, None), (70, 494904, 70), (70, 494904, 7)]
+    if chk.tier == "thorough":
+        big += [(140, 494904, None), (280, 494904, 1024), (280, 494904, 100)]
+    for j, (n, p, rpc) in enumerate(big):
+        cases.append(dict(level="1.5", big=True, images=[("HH", None, n, p)], rpc=rpc, seed=chk.seed + 970 + j, fss=["vtrace"],
+                          sels=[("slice", 3, 5, 1), ("int", 0), ("list", [0, n - 1]), ("slice", 0, n, max(1, n // 3))], origin="big-records", special=False))
     L.tables()
     want = [dict(L.SMALL_LEADER), dict(L.SMALL_LEADER, nmap=0), dict(file="volume", nfp=3), dict(file="volume", nfp=5),
             dict(file="volume", nfp=4), dict(file="trailer", nlow=0, lens=[])]
+    want.append(dict(file="image", kind="processed", n=1, ndata=2, bps=2))
     for c in cases:
         for (_, _, n, p) in c["images"]:
             smp = c.get("sample") or ("C*8" if c.get("level") == "1.1" else "IU2")
